@@ -89,6 +89,9 @@ class G:
         r = self.r
         n = r.choice([0, 1, 3, 8, 20, 20, 62, 63, 254, 255, 256, 300 + r.below(5000)]) if r.chance(1, 3) else r.choice([0, 1, 3, 8, 20])
         s = [1 + r.below(126) for _ in range(n)]
+        if r.chance(1, 6):      # DEL, and the characters with a treacherous relation to ASCII (anything but NUL, the terminator)
+            k = r.below(len(s) + 1)     # (s is still ASCII here: the insertion cannot split a multi-byte character)
+            s = s[:k] + list(r.choice([h for h in HOSTILE if "\0" not in h] + ["\x7f"]).encode("utf-8")) + s[k:]
         if r.chance(1, 5):      # multi-byte UTF-8 characters
             s += list(r.choice(["\u00e9", "\u20ac", "\U0001f600"]).encode("utf-8"))
         return {"t": "Str", "s": s, "owned": r.chance(1, 2)}
